@@ -21,7 +21,10 @@ RULE = ('families: cycles C3..C9, paths, stars, complete graphs, complete bipart
         '1..3) for the random-walk measures; damping d in {.1,.5,.85,.99} and random in (0,1); random positive priors. '
         'findwalks additionally: LARGE graphs n = 11..20 (K_12..K_18, K_{8,8}, circulant, dense/sparse random) compared with '
         'Python-int matrix powers - exact below 2^53, rounded beyond (known finding findwalks:exact53) - and bool / int8 / '
-        'uint8 / int32 / int64 input arrays (ordinary clause findwalks:power since the repair f1bac33). pagerank additionally: random digraphs with '
+        'uint8 / int32 / int64 input arrays (ordinary clause findwalks:power since the repair f1bac33), and SIGNED / FRACTIONAL weight '
+        'matrices (an edge is an entry != 0; oracle = integer powers of the support). mean_first_passage_time / diffusion_efficiency '
+        'additionally on networks with SELF-CONNECTIONS (random positive diagonal entries, lazy walks): hitting-time oracle and '
+        'ediff = 1/mfpt for the same matrix. pagerank additionally: random digraphs with '
         'EMPTY COLUMNS (dangling nodes; oracle = the dangling-redistribution equation), priors with zero entries, integer '
         'input arrays, d = 0. mean_first_passage_time additionally: the eigenpair-selection branch (ok / ambiguous truth '
         'value / tolerance) predicted by the extracted model from aux = |eig - 1| on connected AND on disconnected / '
@@ -214,6 +217,27 @@ def rand_dangling(r, n):
     return A.astype(int)
 
 
+def rand_signed(r, n, frac):
+    """arbitrary digraph (loops allowed) with SIGNED weights, fractional ones (multiples of 1/8) when frac: findwalks discards the
+    weights, an entry is an edge iff it is != 0 (binarize), whatever its sign or size"""
+    vals = [-2.0, -1.0, 1.0, 3.0] + ([-0.5, 0.25, 1.5, -0.125] if frac else [])
+    A = np.zeros((n, n))
+    mask = r.rand(n, n) < r.choice([0.3, 0.6])
+    A[mask] = r.choice(vals, size=int(mask.sum()))
+    return A
+
+
+def with_loops(r, A, lazy=False):
+    """the same network with self-connections: holding probabilities P[i,i] > 0 (lazy walk when every node gets one)"""
+    A = np.array(A, dtype=float); n = len(A)
+    if lazy:
+        return A + np.diag(A.sum(axis=1))
+    k = int(r.randint(1, n + 1))
+    for i in r.choice(n, size=k, replace=False):
+        A[i, i] = float(r.randint(1, 5))
+    return A
+
+
 def mfpt_outcome(bct, Af):
     import warnings
     with warnings.catch_warnings():
@@ -243,6 +267,16 @@ def run(ctx):
     import scipy.linalg
     r = ctx.nprng
     lines, pend = [], []
+
+    # input-representation layer (harness/common.py, design_notes/variants.md): the model comparisons are batched and judged later,
+    # so the variants the layer applied to the implementation calls of a case are attached to the case when it is queued
+    def reg(case, **k):
+        if hasattr(ctx, 'take_variants'):
+            ctx.take_variants()            # forget what belonged to the previous case
+        return ctx.case(case, **k)
+
+    def tagged(case):
+        return ctx.tag_case(case) if hasattr(ctx, 'tag_case') else case
     S = structured(); Cp = copies()
     nrand = ctx.scale(40, 400)
 
@@ -257,14 +291,24 @@ def run(ctx):
         else:
             A = (r.rand(n, n) < r.choice([0.2, 0.5])).astype(int)        # arbitrary digraph, self-loops allowed
         fw_graphs.append(('random', A))
+    # signed and fractional weights: an edge is an entry != 0 (the model binarises by `!= 0` as binarize does)
+    sgn = [('signed', -complete(4)), ('signed', cycle(5) * np.array([1, -1, 1, -1, 1])[:, None]), ('signed', np.array([[0, -1, 0], [0, 0, -2], [3, 0, 0]])),
+           ('fractional', complete(3) / 8.0), ('fractional', np.array([[0, -0.5, 0.25], [0.125, 0, 0], [-1.5, 0, 0.5]]))]
+    for t in range(ctx.scale(16, 120)):
+        sgn.append(('signed', rand_signed(r, int(r.randint(2, 8)), False)) if t % 2 == 0 else ('fractional', rand_signed(r, int(r.randint(2, 8)), True)))
+    fw_graphs += sgn
     fw_graphs.append(('single', np.zeros((1, 1), dtype=int)))
     if ctx.thorough:        # every digraph on 3 nodes (loops included)
         for bits in itertools.product((0, 1), repeat=9):
             fw_graphs.append(('all3', np.array(bits).reshape(3, 3)))
     for fam, A in fw_graphs:
         n = len(A)
+        A = np.asarray(A)
+        # the model takes integers: fractional weights are multiples of 1/8 and are passed times 8 (same support, same signs)
+        Am = A if np.issubdtype(A.dtype, np.integer) else np.rint(A * 8).astype(int)
+        assert np.array_equal((Am != 0), (A != 0))
         case = {'fn': 'findwalks', 'family': fam, 'A': A.tolist()}
-        ctx.case(case, nontrivial=bool(np.any(A))); ctx.count('findwalks:' + fam)
+        reg(case, nontrivial=bool(np.any(A))); ctx.count('findwalks:' + fam)
         impl = None
         try:
             Wq, twalk, wlq = call(bct.findwalks, A.astype(float))
@@ -285,10 +329,10 @@ def run(ctx):
                     if not ctx.check(np.array_equal(Wq[:, :, q], want), 'findwalks:power', 'Wq[:,:,%d] is not the number of walks of length %d (A^%d)' % (q, q, q), case):
                         break
                 ctx.check(twalk == Wq.sum() and np.array_equal(wlq, Wq.sum(axis=(0, 1))), 'findwalks:totals', 'twalk / wlq are not the sums of Wq', case)
-        lines.append('findwalks ' + enc_mat(A)); pend.append(('findwalks', case, impl))
+        lines.append('findwalks ' + enc_mat(Am)); pend.append(('findwalks', tagged(case), impl))
         if 2 <= n <= 5:
             q = int(r.randint(1, n))
-            lines.append('walkcount %s %d' % (enc_mat(A), q)); pend.append(('walkcount', case, (q, np.linalg.matrix_power((A != 0).astype(np.int64), q))))
+            lines.append('walkcount %s %d' % (enc_mat(Am), q)); pend.append(('walkcount', case, (q, np.linalg.matrix_power((A != 0).astype(np.int64), q))))
 
     # findwalks on non-float64 input arrays (regression clause for f1bac33: before it np.dot ran in the dtype of the input -
     # bool: logical products, small ints: wrap-around); ordinary oracle clause + exact comparison with the model
@@ -299,7 +343,7 @@ def run(ctx):
         n = len(A); pw = int_powers(A != 0, n - 1)
         for dt in (bool, np.int8, np.uint8, np.int32, np.int64):
             case = {'fn': 'findwalks', 'family': 'dtype:' + fam, 'dtype': np.dtype(dt).name, 'A': A.tolist()}
-            ctx.case(case, nontrivial=True); ctx.count('findwalks:dtype:' + np.dtype(dt).name)
+            reg(case, nontrivial=True); ctx.count('findwalks:dtype:' + np.dtype(dt).name)
             impl = None
             try:
                 Wq, twalk, wlq = call(bct.findwalks, A.astype(dt))
@@ -312,13 +356,13 @@ def run(ctx):
                           'Wq[:,:,%s] is not the number of walks of that length when the adjacency matrix is a %s array' % (bad, np.dtype(dt).name), case)
                 ctx.check(twalk == Wq.sum() and np.array_equal(wlq, Wq.sum(axis=(0, 1))), 'findwalks:totals', 'twalk / wlq are not the sums of Wq', case)
             if dt in (bool, np.int8):
-                lines.append('findwalks ' + enc_mat(A)); pend.append(('findwalks', case, impl))
+                lines.append('findwalks ' + enc_mat(A)); pend.append(('findwalks', tagged(case), impl))
 
     # findwalks on LARGE graphs against Python-int powers: exact below 2^53, correctly rounded beyond
     for fam, A in large_graphs(r, ctx.thorough):
         n = len(A); B = (A != 0).astype(int)
         case = {'fn': 'findwalks', 'family': 'large:' + fam, 'A': A.tolist()}
-        ctx.case(case, nontrivial=True); ctx.count('findwalks:large')
+        reg(case, nontrivial=True); ctx.count('findwalks:large')
         pw = int_powers(B, n - 1)
         true_wlq = [0] + [int(pw[q].sum()) for q in range(1, n)]; true_tw = sum(true_wlq)
         exact_regime = true_tw < 2 ** 53
@@ -340,7 +384,7 @@ def run(ctx):
                 rel = max([0.0] + [float(max(abs(F(int(Wq[i, j, q])) - pw[q][i, j]) / max(1, pw[q][i, j]) for i in range(n) for j in range(n))) for q in range(1, n)])
                 relt = float(abs(F(int(twalk)) - true_tw) / true_tw)
                 ctx.check(rel <= 1e-13 and relt <= 1e-13 and not np.any(Wq[:, :, 0]), 'findwalks:rounded', 'beyond 2^53 the counts are not even the rounded walk numbers: relative error %.3g / %.3g' % (rel, relt), case)
-        lines.append('findwalksx ' + enc_mat(A)); pend.append(('findwalksx', case, (impl, pw, true_wlq, true_tw, exact_regime)))
+        lines.append('findwalksx ' + enc_mat(A)); pend.append(('findwalksx', tagged(case), (impl, pw, true_wlq, true_tw, exact_regime)))
 
     # ------------------------------------------------------------ mean first passage time / diffusion efficiency
     rw = [(f, A) for f, A in S]
@@ -349,12 +393,19 @@ def run(ctx):
         rw.append(('random_und_w', rand_conn_und(r, n, 4)) if t % 2 == 0 else ('random_dir_strong', rand_strong_dir(r, n, 3)))
     # the measures are invariant under rescaling of the weights: fractional weights (node strengths below 1) and large ones
     rw += [(f + '/8', np.asarray(A, dtype=float) / 8.0) for f, A in rw[::3]] + [(f + '*64', np.asarray(A, dtype=float) * 64.0) for f, A in rw[1::5]]
+    # self-connections (non-zero diagonal): the chain holds with probability P[i,i]; everything below is judged for THIS matrix
+    # (the model takes the diagonal as given, transP divides by the full row sum)
+    base = [(f, A) for f, A in rw if len(A) >= 2 and connected(A)]
+    loops = [('lazy:' + f, with_loops(r, A, lazy=True)) for f, A in base[:len(S)][::4]]
+    loops += [('loops:' + f, with_loops(r, A)) for f, A in base[1::3]]
+    loops += [('loops', np.array([[1.0, 1.0], [1.0, 0.0]])), ('loops', np.array([[2.0, 1.0, 0.0], [0.0, 0.0, 1.0], [1.0, 0.0, 3.0]])), ('lazy', with_loops(r, cycle(9), lazy=True))]
+    rw += loops
     for fam, A in rw:
         n = len(A)
         if n < 2 or not connected(A):
             continue
         case = {'fn': 'mean_first_passage_time', 'family': fam, 'A': A.tolist()}
-        ctx.case(case, nontrivial=True); ctx.count('mfpt:' + fam)
+        reg(case, nontrivial=True); ctx.count('mfpt:' + fam)
         Af = A.astype(float)
         try:
             M = np.real_if_close(call(bct.mean_first_passage_time, Af.copy()))
@@ -377,16 +428,18 @@ def run(ctx):
             off = ~np.eye(n, dtype=bool)
             ctx.check(E.shape == (n, n) and np.allclose(E[off] * H[off], 1, rtol=1e-7, atol=0) and not np.any(np.diag(E)),
                       'diffusion_efficiency:inverse', 'ediff is not 1/mfpt off the diagonal with a zero diagonal', case)
+            ctx.check(E.shape == (n, n) and np.allclose(E[off] * Md[off], 1, rtol=1e-9, atol=0), 'diffusion_efficiency:inverse',
+                      'ediff is not the elementwise inverse of mean_first_passage_time of the SAME matrix', case)
             ctx.check(abs(ge - E[off].sum() / (n * n - n)) <= 1e-12 * max(1, abs(ge)) and abs(ge - (1 / H[off]).sum() / (n * n - n)) <= 1e-7,
                       'diffusion_efficiency:mean', 'gediff is not the mean of the off-diagonal entries', case)
         # the extracted model computes w, Z, M, ediff, gediff from A alone (exact elimination over Q)
         if n <= 7:
-            lines.append('mfptc %s' % enc_mat(fq_mat(A), enc_qb)); pend.append(('mfptc', case, (M, E, ge)))
+            lines.append('mfptc %s' % enc_mat(fq_mat(A), enc_qb)); pend.append(('mfptc', tagged(case), (M, E, ge)))
         # the selection branch predicted by the model from aux = |eig(P^T) - 1|
         aux = selection_aux(Af)
         if np.all(np.isfinite(aux)):
             lines.append('mfptsel %s %s' % (enc_qb(F(10e-3)), enc_list([F(float(x)) for x in aux], enc_qb)))
-            pend.append(('mfptsel', case, ('ok', [float(x) for x in aux])))
+            pend.append(('mfptsel', tagged(case), ('ok', [float(x) for x in aux])))
 
     # outside the property (robustness note): disconnected / reducible inputs - only the selection branch is compared
     rej = [('disconnected', disjoint(complete(2), complete(2))), ('disconnected', disjoint(cycle(3), cycle(3))),
@@ -398,13 +451,13 @@ def run(ctx):
     for fam, A in rej:
         Af = A.astype(float)
         case = {'fn': 'mean_first_passage_time:selection', 'family': fam, 'A': A.tolist()}
-        ctx.case(case, nontrivial=True); ctx.count('mfpt:reject:' + fam)
+        reg(case, nontrivial=True); ctx.count('mfpt:reject:' + fam)
         out, _ = mfpt_outcome(bct, Af)
         ctx.count('mfpt:reject-outcome:' + out.split(':')[0])
         aux = selection_aux(Af)
         if np.all(np.isfinite(aux)):
             lines.append('mfptsel %s %s' % (enc_qb(F(10e-3)), enc_list([F(float(x)) for x in aux], enc_qb)))
-            pend.append(('mfptsel', case, (out, [float(x) for x in aux])))
+            pend.append(('mfptsel', tagged(case), (out, [float(x) for x in aux])))
 
     # ------------------------------------------------------------ pagerank
     def pagerank_oracle(A, d, prior, pr, case):
@@ -437,7 +490,7 @@ def run(ctx):
             use_prior = r.rand() < 0.3
             prior = r.randint(1, 6, n).astype(float) if use_prior else None
             case = {'fn': 'pagerank_centrality', 'family': fam, 'A': A.tolist(), 'd': d, 'falff': None if prior is None else prior.tolist()}
-            ctx.case(case, nontrivial=True); ctx.count('pagerank:' + fam)
+            reg(case, nontrivial=True); ctx.count('pagerank:' + fam)
             try:
                 pr = pr_call(A.astype(float), d, prior)
             except Exception as e:
@@ -461,7 +514,7 @@ def run(ctx):
                 prior[int(r.randint(0, n))] = 2
         as_int = fam == 'dangling' and r.rand() < 0.3 and all(float(x).is_integer() for row in A for x in row)
         case = {'fn': 'pagerank_centrality', 'family': fam, 'A': np.asarray(A).tolist(), 'd': str(dq), 'falff': prior, 'exact': True, 'int_array': bool(as_int)}
-        ctx.case(case, nontrivial=bool(np.any(A))); ctx.count('pagerank:exact:' + fam); ctx.count('pagerank:prior-mode-%d' % mode)
+        reg(case, nontrivial=bool(np.any(A))); ctx.count('pagerank:exact:' + fam); ctx.count('pagerank:prior-mode-%d' % mode)
         try:
             pr = pr_call(np.asarray(A).astype(int if as_int else float), float(dq), prior)
         except Exception as e:
@@ -474,7 +527,7 @@ def run(ctx):
         rp = fsolve(Bq, [[(1 - dq) * fq[i]] for i in range(n)])
         rq = None if rp is None else [x[0] / sum(y[0] for y in rp) for x in rp]
         lines.append('pagerankc %s %s %s' % (enc_mat(Aq, enc_qb), enc_qb(dq), '0' if prior is None else '1 ' + enc_list([F(x) for x in prior], enc_qb)))
-        pend.append(('pagerankc', case, (pr, rq)))
+        pend.append(('pagerankc', tagged(case), (pr, rq)))
 
     # ------------------------------------------------------------ subgraph centrality / eigenvector centrality
     sp = S + Cp
@@ -485,7 +538,7 @@ def run(ctx):
     for fam, A in sp:
         n = len(A); Af = (A != 0).astype(float)
         case = {'fn': 'subgraph_centrality', 'family': fam, 'A': A.tolist()}
-        ctx.case(case, nontrivial=bool(np.any(A))); ctx.count('spectral:' + fam)
+        reg(case, nontrivial=bool(np.any(A))); ctx.count('spectral:' + fam)
         try:
             Cs = call(bct.subgraph_centrality, Af.copy())
             want = np.diag(scipy.linalg.expm(Af))
@@ -494,7 +547,7 @@ def run(ctx):
         except Exception as e:
             ctx.fail('subgraph_centrality:raises', 'raised %r' % (e,), case)
         case = {'fn': 'eigenvector_centrality_und', 'family': fam, 'A': A.tolist()}
-        ctx.case(case, nontrivial=bool(np.any(A)))
+        reg(case, nontrivial=bool(np.any(A)))
         variants = [Af]
         if fam == 'random_und':
             variants.append(Af * r.randint(1, 5, (n, n)))        # weighted; symmetrised from the upper triangle below
@@ -536,11 +589,11 @@ def run(ctx):
         n = len(V)
         Aq = [[sum(V[i][k] * lam[k] * V[j][k] for k in range(n)) for j in range(n)] for i in range(n)]
         Af = np.array([[float(x) for x in row] for row in Aq])
-        Cs = call(bct.subgraph_centrality, Af.copy())
         case = {'fn': 'subgraph_centrality', 'family': 'exact_decomposition', 'A': [[str(x) for x in row] for row in Aq], 'lam': [str(x) for x in lam]}
-        ctx.case(case, nontrivial=True); ctx.count('spectral:exact')
+        reg(case, nontrivial=True); ctx.count('spectral:exact')
+        Cs = call(bct.subgraph_centrality, Af.copy())
         lines.append('subgraph %s %s %s %d' % (enc_mat(Aq, enc_qb), enc_mat(V, enc_qb), enc_list(lam, enc_qb), 30))
-        pend.append(('subgraph', case, Cs))
+        pend.append(('subgraph', tagged(case), Cs))
 
     # ------------------------------------------------------------ correspondence with the extracted Coq model
     res = run_model(ID, lines)
